@@ -449,6 +449,74 @@ fn stress<V: VringT<dmn::Mem> + Clone + Send + Sync + 'static>(cfg: &Cfg, rng: &
     let _ = s.daemon.wait();
 }
 
+extern "C" fn noop_handler(_: libc::c_int) {}
+
+/// A wake-up of the worker that carries no event at all: a signal delivered to the worker thread while it
+/// sleeps in epoll_wait (EINTR). The worker must go on: it parks again and later kicks are dispatched.
+fn signal_wakeup<V: VringT<dmn::Mem> + Clone + Send + Sync + 'static>(cfg: &Cfg, two_workers: bool) {
+    unsafe {
+        let mut sa: libc::sigaction = std::mem::zeroed();
+        sa.sa_sigaction = noop_handler as usize;
+        libc::sigemptyset(&mut sa.sa_mask);
+        sa.sa_flags = 0;
+        libc::sigaction(libc::SIGUSR1, &sa, std::ptr::null_mut());
+    }
+    let masks = if two_workers { vec![0b01, 0b10] } else { vec![0b11] };
+    let bc = BCfg { num_queues: 2, masks, ..BCfg::default() };
+    let mut s: Sess<V> = Sess::new(bc);
+    let mut fe = s.connect(2);
+    let pf = s.be.cfg.protocol_features | spec::PF_REPLY_ACK;
+    if let Err(e) = dmn::negotiate(&mut fe, dmn::NEG_FEATURES_PF | 3, pf) {
+        report::inconclusive(&format!("negotiate: {e}"));
+        return;
+    }
+    let kicks: Vec<EventFd> = (0..2).map(|_| EventFd::new(libc::EFD_NONBLOCK).expect("eventfd")).collect();
+    // ring 0 is active before the signal, ring 1 is disabled with a retained kick and enabled afterwards
+    let mut ok = fe.set_vring_kick(0, &kicks[0]).is_ok() && fe.set_vring_enable(0, true).is_ok();
+    ok &= fe.set_vring_kick(1, &kicks[1]).is_ok() && fe.set_vring_enable(1, false).is_ok();
+    if !ok || !matches!(s.quiesce_ex(), dmn::Quiet::Yes) {
+        report::inconclusive("signal-wakeup: set-up");
+        return;
+    }
+    let _ = kicks[1].write(1);
+    let pid = unsafe { libc::getpid() };
+    let mut signalled = 0;
+    for w in &s.workers {
+        for _ in 0..3 {
+            if sys::wait_until(5000, || sys::parked_in(w.tid, &[sys::SYS_EPOLL_WAIT, sys::SYS_EPOLL_PWAIT])) {
+                unsafe { libc::syscall(libc::SYS_tgkill, pid, w.tid, libc::SIGUSR1) };
+                signalled += 1;
+                std::thread::sleep(std::time::Duration::from_millis(2));
+            }
+        }
+    }
+    let alive: Vec<bool> = s.workers.iter().map(|w| sys::wait_until(3000, || sys::parked_in(w.tid, &[sys::SYS_EPOLL_WAIT, sys::SYS_EPOLL_PWAIT]) || !sys::threads().iter().any(|t| t.0 == w.tid)) && sys::threads().iter().any(|t| t.0 == w.tid)).collect();
+    let before = s.queue_events().len();
+    let _ = kicks[0].write(1);
+    let enabled = fe.set_vring_enable(1, true).is_ok();
+    let consumed = sys::wait_until(10_000, || sys::eventfd_count(kicks[0].as_raw_fd()) == Some(0) && sys::eventfd_count(kicks[1].as_raw_fd()) == Some(0));
+    let _ = s.quiesce_ex();
+    let evs = s.queue_events();
+    let n0 = evs[before..].iter().filter(|e| if two_workers { e.thread_id == 0 } else { e.device_event == 0 }).count();
+    let n1 = evs[before..].iter().filter(|e| if two_workers { e.thread_id == 1 } else { e.device_event == 1 }).count();
+    report::eval(1);
+    report::count("signal_wakeups", signalled);
+    report::distinct_str(&format!("signal:{two_workers}:{}", std::any::type_name::<V>().len()));
+    let detail = jo! {"two_workers" => two_workers, "signals_delivered_while_parked_in_epoll_wait" => signalled, "worker_threads_alive_afterwards" => alive.iter().map(|a| J::Bool(*a)).collect::<Vec<J>>(),
+        "kicks_consumed" => consumed, "dispatches_ring0" => n0, "dispatches_ring1_after_enable" => n1, "enable_acknowledged" => enabled};
+    if signalled == 0 {
+        report::inconclusive("signal-wakeup: no worker was parked in epoll_wait");
+    } else if alive.iter().any(|a| !*a) {
+        report::violation("C12:signal-wakeup:worker-thread-terminated", detail, cfg.replay("signal"));
+    } else if !consumed || n0 == 0 || n1 == 0 {
+        report::violation("C12:signal-wakeup:kick-lost", detail, cfg.replay("signal"));
+    } else {
+        report::sample("signal-wakeup", detail);
+    }
+    drop(fe);
+    let _ = s.daemon.wait();
+}
+
 pub fn run(cfg: &Cfg) {
     report::assume("a dispatch stamped between sending a deactivating message and reading its reply is ambiguous and not judged; only dispatches after the peer has read the reply count as post-stop");
     report::assume("hold points sit between lock-protected steps (after the state change, after the epoll update, after epoll_wait returned, after the kick was read, before dispatch): every enumerated order is one the scheduler could produce");
@@ -461,6 +529,9 @@ pub fn run(cfg: &Cfg) {
         if o == "stress" {
             stress::<VringMutex<dmn::Mem>>(cfg, &mut rng);
             stress::<VringRwLock<dmn::Mem>>(cfg, &mut rng);
+        } else if o == "signal" {
+            signal_wakeup::<VringMutex<dmn::Mem>>(cfg, false);
+            signal_wakeup::<VringRwLock<dmn::Mem>>(cfg, true);
         } else if let Some((sc, rest)) = o.split_once(':') {
             if let (Ok(si), Some((vi, oi))) = (sc.parse::<usize>(), rest.split_once(':')) {
                 if let (Ok(vi), Ok(oi)) = (vi.parse::<usize>(), oi.parse::<usize>()) {
@@ -497,6 +568,12 @@ pub fn run(cfg: &Cfg) {
                 }
             }
         }
+    }
+    if cfg.shard == 1 % cfg.nshards.max(1) {
+        signal_wakeup::<VringMutex<dmn::Mem>>(cfg, false);
+        signal_wakeup::<VringRwLock<dmn::Mem>>(cfg, true);
+        signal_wakeup::<VringMutex<dmn::Mem>>(cfg, true);
+        signal_wakeup::<VringRwLock<dmn::Mem>>(cfg, false);
     }
     if cfg.shard == 0 {
         stress::<VringMutex<dmn::Mem>>(cfg, &mut rng);
